@@ -13,8 +13,9 @@
      x  = a listed app that is on the exclude list is not a seed
    No Panic outcome remains in the builder (IntsTerm.build_never_panics).
    Outside the model: statements with no kind set (ProcessCalls panics on them; the parser never builds
-   one), the de-duplication key being the ':'-joined string rather than the 4-tuple, labels / colours,
-   the "system" view, mixin arrows, package boxes of the clustered view, the EPA view (Go oracle only). *)
+   one), the de-duplication key being the ':'-joined string rather than the 4-tuple, labels / colours.
+   The rest of ints_view.go (package boxes, symbol table, the "system" view, mixin arrows, the EPA view) and the
+   per-endpoint loop of GenerateIntegrations are in VModel.v; b.walking as shared state is in WalkDisc.v. *)
 From Coq Require Import List NArith Bool.
 Import ListNotations.
 Local Open Scope N_scope.
